@@ -33,6 +33,21 @@ def run(idx, rep, tier):
     r3(idx, rep)
     r4_r5_r7(idx, rep)
     r6(idx, rep)
+    # how the run is driven is invisible to the match part: `collecting` (set by collect() only) is read by the generator's unmatched step
+    # and by nothing else — a component that looked at it would behave differently under next()/fast_forward() than under collect()
+    reads = []
+    for fi in idx.all_funcs("csvpath/"):
+        for n in walk_no_nested(fi.node):
+            if isinstance(n, ast.Attribute) and n.attr in ("collecting", "_collecting") and isinstance(n.ctx, ast.Load):
+                reads.append((fi, n))
+    for fi, n in reads:
+        okr = fi.qual == "CsvPath.next" or (fi.cls == "CsvPath" and fi.name == "collecting")
+        rep.check(okr, "R2", f"{fi.file}::{fi.qual} reads collecting", f"`{unparse(n)}`: only the generator's unmatched step may depend on whether the caller is collect(); "
+                  "anything else makes collect(), next() and fast_forward() different runs", K.where(fi, n))
+    rep.floor("R2", 1, "reads of collecting")
+    # whether unmatched lines are kept at all is the unmatched-mode value (the generator table above takes it as an input)
+    from . import c15
+    c15.mode_value_tables(idx, rep, "R7", classes={"UnmatchedMode"})
     rep.stats["exhaustive"] = True
 
 
